@@ -22,7 +22,7 @@ def run(pid, m, tier):
         return "SPEC-ERROR old text occurs %d times in %s" % (n, ed["file"]), 0
       open(p, "w").write(s.replace(ed["old"], ed["new"]))
     t0 = time.time()
-    env = dict(os.environ, VT_REPO=tmp, VT_NO_SHRINK="1", VT_EVIDENCE_DIR=os.path.join(tmp, "evidence"))
+    env = dict(os.environ, VT_REPO=tmp, VT_NO_SHRINK="1", VT_REPLAY_DIR=os.path.join(tmp, "replays"), VT_EVIDENCE_DIR=os.path.join(tmp, "evidence"))
     r = subprocess.run([os.path.join(HERE, "check"), pid, "--tier", tier], cwd=HERE, env=env, capture_output=True, text=True)
     dt = time.time() - t0
     buckets = [l.split()[1][7:] for l in r.stdout.splitlines() if l.startswith("FAIL bucket=")]
@@ -33,7 +33,6 @@ def run(pid, m, tier):
     return "HARNESS-ERROR rc=%d %s" % (r.returncode, (r.stdout + r.stderr)[-300:].replace("\n", " | ")), dt
   finally:
     shutil.rmtree(tmp, ignore_errors=True)
-    shutil.rmtree(os.path.join(HERE, "replays", "new"), ignore_errors=True)
 
 def main():
   args = sys.argv[1:]
